@@ -1332,8 +1332,17 @@ class Engine:
             raise Undecided('loop #%d (%s) of %s has no invariant' % (ordinal, _header_text(node), self.c.qualname))
         is_for = isinstance(node, (ast.For, ast.AsyncFor))
         L = None
+        iter_fails = None
         if is_for:
             it = self.ev(node.iter, st)
+            ihook = self.c.calls.get('iter:' + ast.unparse(node.iter))
+            if ihook is not None:
+                # (C22) an iterable the contract gives a meaning to (e.g. an asynchronous directory listing): the model returns
+                # the list of the elements it hands out, or (list, failure) where failure(state) -> SExc is an exception with
+                # which handing out any one element may fail instead (the elements before it have been consumed by then)
+                it = ihook(self, st, [it], {}, node)
+                if isinstance(it, tuple) and len(it) == 2 and isinstance(it[0], SList):
+                    it, iter_fails = it
             if isinstance(it, tuple) and it and it[0] == 'range':
                 L = it
             elif isinstance(it, SList):
@@ -1414,6 +1423,10 @@ class Engine:
         if is_for:
             k = body.env[spec.index]
             body.assume(k < n_iter)
+            if iter_fails is not None and feasible(body.pc):
+                fb = body.fork()
+                fb.trace.append('iterator-fails')
+                outs.append((fb, ('raise', iter_fails(fb))))
             elem = from_z3(z3.Select(L.arr, k), L.et) if isinstance(L, SList) else (L[1] + k * L[3])
             self.assign(node.target, elem, body)
         else:
@@ -2370,6 +2383,16 @@ class Engine:
         raise Undecided('subscript of %r' % (cont,))
 
     def slice(self, cont, sl, st):
+        if self.c.strings and sl.step is None and (isinstance(cont, str) or (isinstance(cont, z3.ExprRef) and cont.sort() == z3.StringSort())):
+            # (C22) s[lo:hi] of a string term (contracts with strings=True): Python's clamping of negative / too large bounds,
+            # then the z3 substring (offset, length)
+            s_ = self.pystr(cont)
+            n = z3.Length(s_)
+            lo = to_z3(self.ev(sl.lower, st), 'int') if sl.lower is not None else z3.IntVal(0)
+            hi = to_z3(self.ev(sl.upper, st), 'int') if sl.upper is not None else n
+            clamp = lambda x: z3.If(x < 0, z3.If(x + n < 0, 0, x + n), z3.If(x > n, n, x))
+            lo, hi = clamp(lo), clamp(hi)
+            return z3.SubString(s_, lo, z3.If(hi > lo, hi - lo, 0))
         if not isinstance(cont, SList):
             raise Undecided('slice of non-list')
         if sl.step is not None:
